@@ -606,17 +606,17 @@ func runTrial(r *vlib.Run, mode string, trial int, rng *rand.Rand) {
 				x := wr.Intn(100)
 				p := leaves[wr.Intn(len(leaves))]
 				switch {
-				case x < 52:
+				case x < 53:
 					write(ti, "upd", p, newVal(ti))
-				case x < 64:
+				case x < 65:
 					for k := 0; k < 2+wr.Intn(4); k++ {
 						write(ti, "upd", p, newVal(ti))
 					}
-				case x < 79:
+				case x < 80:
 					write(ti, "del", p, 0)
-				case x < 88:
+				case x < 89:
 					write(ti, "del", p[:2], 0)
-				case x < 92:
+				case x < 93:
 					write(ti, "del", p[:1], 0)
 				case x < 96:
 					write(ti, "reset", nil, 0)
@@ -1249,7 +1249,7 @@ func (ts *trialState) removedSince(s *sub) bool {
 }
 
 func body(r *vlib.Run) {
-	r.ForTrials("acl", r.N(320, 8000), func(trial int, rng *rand.Rand) {
+	r.ForTrials("acl", r.N(640, 12000), func(trial int, rng *rand.Rand) {
 		if r.NViolations() >= 12 {
 			return // the tree is broken; more witnesses of the same kind add nothing
 		}
@@ -1275,7 +1275,7 @@ func postMerge(tier string, c map[string]int64) []string {
 func main() {
 	vlib.Main(&vlib.Spec{
 		ID:   "C07",
-		Rule: "Each trial: real cache + subscribe.Server with a scripted ACL (2-3 table users x 2-4 targets, random rows incl. all-deny and all-allow, an all-allow user 'root' for twins, a user whose NewRPCACL fails; every 16th trial on average NewRPCACL fails for everybody), cache pre-filled, one writer per target issuing 30-180 updates (unique values) / leaf and subtree deletes / Reset / Remove + re-Add, 3-7 subscriptions (ONCE, POLL with 0-2 interactive triggers, STREAM, STREAM+updates_only; single target or '*'; 1-2 wildcard paths) started at seeded moments, an unrestricted twin for every restricted '*' STREAM subscription, and after logical quiescence (C04's sentinel protocol) ONCE/POLL '*' twin pairs per user plus one single-target call on the unchanging cache; GOMAXPROCS in {2,4,16}; seeded delays and long holds at 7 schedule points. Every response of every stream is judged online against the table. A trial is distinct non-trivial when at least one non-vacuous clause was decided in it (an unrestricted twin received data the restricted sibling had to be denied, or a denied single-target call or an unauthenticated call was judged) and its sequence of schedule points is new.",
+		Rule: "Each trial: real cache + subscribe.Server with a scripted ACL (2-3 table users x 2-4 targets, random rows incl. all-deny and all-allow, an all-allow user 'root' for twins, a user whose NewRPCACL fails; every 16th trial on average NewRPCACL fails for everybody), cache pre-filled, one writer per target issuing 30-180 operations: updates (unique values) / leaf and subtree deletes / Reset / Remove + re-Add, 3-7 subscriptions (ONCE, POLL with 0-2 interactive triggers, STREAM, STREAM+updates_only; single target or '*'; 1-2 wildcard paths) started at seeded moments, an unrestricted twin for every restricted '*' STREAM subscription, and after logical quiescence (C04's sentinel protocol) ONCE/POLL '*' twin pairs per user plus one single-target call on the unchanging cache; GOMAXPROCS in {2,4,16}; seeded delays and long holds at 7 schedule points. Every response of every stream is judged online against the table. A trial is distinct non-trivial when at least one non-vacuous clause was decided in it (an unrestricted twin received data the restricted sibling had to be denied, or a denied single-target call or an unauthenticated call was judged) and its sequence of schedule points is new.",
 		Assumptions: []string{
 			"the ACL is a pure function of (user, target) for the duration of a trial; the user is whatever NewRPCACL reads from the stream context",
 			"one writer goroutine per target (the collector's discipline); a writer removes and re-adds only its own target",
